@@ -233,6 +233,12 @@ pub fn build_cmd(c: &Value) -> Command {
     if on("subcommand_negates_reqs") { cmd = cmd.subcommand_negates_reqs(true); }
     if on("no_binary_name") { cmd = cmd.no_binary_name(true); }
     if on("multicall") { cmd = cmd.multicall(true); }
+    #[allow(deprecated)]
+    {
+        if on("allow_hyphen_values") { cmd = cmd.allow_hyphen_values(true); }
+        if on("allow_negative_numbers") { cmd = cmd.allow_negative_numbers(true); }
+        if on("trailing_var_arg") { cmd = cmd.trailing_var_arg(true); }
+    }
     for a in c["args"].as_array().unwrap() {
         let mut x = build_arg(a);
         // membership declared on the argument (Arg::groups) rather than on the group
